@@ -7528,3 +7528,22 @@ mod tests {
         assert!(dt.validate().is_ok());
     }
 }
+
+// ---- verif hook H2 (cfg delaunay_verif): raw access for fault injection; not compiled otherwise ----
+#[cfg(delaunay_verif)]
+impl<K, U, V, const D: usize> DelaunayTriangulation<K, U, V, D>
+where
+    K: Kernel<D>,
+    U: DataType,
+    V: DataType,
+{
+    /// verif hook: mutable Tds without dropping the duplicate cache.
+    pub fn verif_tds_mut(&mut self) -> &mut Tds<K::Scalar, U, V, D> {
+        &mut self.tri.tds
+    }
+
+    /// verif hook: whether the duplicate-detection grid is currently present.
+    pub fn verif_has_spatial_index(&self) -> bool {
+        self.spatial_index.is_some()
+    }
+}
